@@ -437,6 +437,27 @@ impl<'t, 'd> G<'t, 'd> {
 		self.generic_defs.push(name);
 	}
 
+	/// generic struct owning a named sub-schema (a fixed with a logical type), with or
+	/// without an explicit namespace, plus a parent that instantiates it twice
+	fn gen_generic_owning_named(&mut self, idx: usize) {
+		let name = format!("GL{idx}");
+		let explicit_ns = self.t.bool();
+		let mut text = String::new();
+		text.push_str(Self::derive_line());
+		if explicit_ns {
+			let _ = writeln!(text, "#[avro_schema(namespace = \"gl.ns\")]");
+		}
+		let _ = writeln!(text, "pub(crate) struct {name}<T> {{\n\tpub a: T,\n\t#[avro_schema(logical_type = \"Duration\")]\n\t#[serde(with = \"serde_bytes\")]\n\tpub d: [u8; 12],\n}}");
+		let _ = writeln!(text, "impl<T: Gen> Gen for {name}<T> {{\n\tfn gen(t: &mut Tape, d: usize) -> Self {{\n\t\tSelf {{ a: T::gen(t, d + 1), d: <[u8; 12] as Gen>::gen(t, d) }}\n\t}}\n}}\n");
+		let parent = format!("GP{idx}");
+		text.push_str(Self::derive_line());
+		let _ = writeln!(text, "pub(crate) struct {parent} {{\n\tpub x: {name}<i32>,\n\tpub y: {name}<String>,\n\tpub z: Vec<{name}<i32>>,\n}}");
+		let _ = writeln!(text, "impl Gen for {parent} {{\n\tfn gen(t: &mut Tape, d: usize) -> Self {{\n\t\tSelf {{ x: Gen::gen(t, d + 1), y: Gen::gen(t, d + 1), z: Gen::gen(t, d + 1) }}\n\t}}\n}}\n");
+		self.emit(&[], text);
+		let full = format!("{}.{parent}", self.krate);
+		self.defs.push(Def { path: parent, kind: AK::Named(full), features: if explicit_ns { vec!["generic-twice", "logical", "generic-owning-named/explicit-namespace"] } else { vec!["generic-twice", "logical", "generic-owning-named"] }, plain: true, has_lifetime: false });
+	}
+
 	fn gen_borrowing(&mut self, idx: usize) {
 		let name = format!("B{idx}");
 		let mut text = String::new();
@@ -458,6 +479,10 @@ pub fn generate(tape: &[u8], krate: &str, n_types: usize) -> Family {
 	let mut g = G { t: &mut t, defs: Vec::new(), krate: krate.to_string(), mods: Vec::new(), generic_defs: Vec::new() };
 	g.gen_generic(0);
 	g.gen_generic(1);
+	g.gen_generic_owning_named(0);
+	if g.t.bool() {
+		g.gen_generic_owning_named(1);
+	}
 	for idx in 0..n_types {
 		match g.t.below(10) {
 			0..=3 => g.gen_record(idx),
